@@ -260,7 +260,7 @@ func genC13(r *RNG, tier string, run int) *Trace {
 		return genMultiBig(r)
 	}
 	if run%97 == 11 {
-		return genC13ManyResets(r)
+		return genC13ManyResets(r, tier == "thorough" && run%(97*1021) == 11)
 	}
 	if run%3 == 2 || run%12 == 0 {
 		return genMultiTrace(r, tier)
@@ -821,10 +821,13 @@ func genC07(r *RNG, tier string, run int) *Trace {
 // mutated copy of message j, so that whatever a parser keeps "per Reset" in a
 // narrow counter or generation stamp meets its own past. The fresh twin of
 // oracle 1 starts at the last Reset.
-func genC13ManyResets(r *RNG) *Trace {
+func genC13ManyResets(r *RNG, huge bool) *Trace {
 	typ := parserTypes[r.Intn(len(parserTypes))]
 	if r.Chance(0.25) {
 		typ = "BUP" // the dictionary with the most per-bucket state
+	}
+	if huge {
+		typ = r.pickStr("OSAP", "OSAP", "GSAP", "BUP", "HP", "DHP")
 	}
 	spec := genParserSpec(r, typ, "small")
 	spec.Target, spec.Plan = "", nil
@@ -843,6 +846,17 @@ func genC13ManyResets(r *RNG) *Trace {
 		spec.HashBits1, spec.HashBits2 = r.Range(6, 12), r.Range(6, 12)
 	}
 	k := r.Pick(255, 256, 257, 258, 300, 513, 520)
+	if huge {
+		// a 16-bit counter meets its past (thorough tier only: minutes per run)
+		k = 65536 + r.Intn(600)
+		if spec.BufferSize != 0 && spec.BufferSize < 4500 {
+			spec.BufferSize = 4500 + r.Intn(4000)
+			if spec.ShrinkSize >= spec.BufferSize {
+				spec.ShrinkSize = spec.BufferSize / 2
+			}
+		}
+		spec.BlockSize = 0
+	}
 	base := genInput(r, r.Range(20, 80), "iid4")
 	msgs := make([][]byte, k+1)
 	t := &Trace{World: "parser", Prop: "C13", P: &spec}
@@ -867,6 +881,15 @@ func genC13ManyResets(r *RNG) *Trace {
 		if j >= 256 {
 			a := r.Intn(len(base))
 			m = append(m, src[a:min(len(src), a+8+r.Intn(24))]...)
+		}
+		if huge && (j < 40 || j > k-700 || j > 65500 && j < 65600) && r.Chance(0.3) {
+			// some long records early, around the wrap and at the end
+			if j < 40 {
+				m = genInput(r, r.Range(2000, 4000), r.pickStr("iid4", "copyback", "iid16")) // many edges
+			} else {
+				m = genInput(r, r.Range(1000, 3500), "iid256") // hardly any
+				copy(m[len(m)/2:], m[10:50])
+			}
 		}
 		msgs[j] = m
 		t.Input = append(t.Input, m...)
